@@ -126,21 +126,25 @@ fn eval_inner(target: &str, input: &str) -> Option<String> {
         }
         // input: an XML document; indentation must not add whitespace inside mixed content / preserve scope
         "pretty_scope" => {
+            // input: "<doc>" or "S:<doc>" (S: the element `a` is on the suppress list)
+            let (suppress_a, doc) = match input.strip_prefix("S:") { Some(d) => (true, d), None => (false, input) };
             let mut xot = Xot::new();
-            let root = xot.parse(input).ok()?;
-            let params = Parameters { indentation: Some(Indentation::default()), ..Default::default() };
+            let a_name = xot.add_name("a");
+            let root = xot.parse(doc).ok()?;
+            let params = Parameters { indentation: Some(Indentation { suppress: if suppress_a { vec![a_name] } else { vec![] } }), ..Default::default() };
             let s = xot.serialize_xml_string(params, root).unwrap();
             let mut xot2 = Xot::new();
             let root2 = match xot2.parse(&s) {
                 Ok(r) => r,
                 Err(e) => return Some(format!("pretty output {:?} does not reparse: {:?}", s, e)),
             };
+            let a2 = xot2.add_name("a");
             // every whitespace-only text node of the reparse that has no counterpart in the source
             let space = xot2.xml_space_name();
             let nodes: Vec<_> = xot2.descendants(root2).collect();
             for n in nodes {
                 if let Some(t) = xot2.text_str(n) {
-                    if t.chars().all(|c| c == ' ' || c == '\n') && !input.contains(&format!(">{}<", t)) {
+                    if t.chars().all(|c| c == ' ' || c == '\n') && !doc.contains(&format!(">{}<", t)) {
                         // added by pretty printing: where is it?
                         let parent = xot2.parent(n).unwrap();
                         let mut preserve = false;
@@ -152,9 +156,12 @@ fn eval_inner(target: &str, input: &str) -> Option<String> {
                                 }
                             }
                         }
-                        let mixed = xot2.children(parent).any(|c| xot2.text_str(c).map(|t| !t.trim().is_empty()).unwrap_or(false));
-                        if preserve || mixed {
-                            return Some(format!("pretty output {:?} adds whitespace inside {} content", s, if preserve { "xml:space=preserve" } else { "mixed" }));
+                        // mixed content: the parent or any element above it has a text child with content
+                        let mixed = xot2.ancestors(parent).any(|e| xot2.children(e).any(|c| xot2.text_str(c).map(|t| !t.trim().is_empty()).unwrap_or(false)));
+                        // suppressed: inside an element whose name is on the suppress list
+                        let suppressed = suppress_a && xot2.ancestors(parent).any(|e| xot2.element(e).map(|x| x.name()) == Some(a2));
+                        if preserve || mixed || suppressed {
+                            return Some(format!("pretty output {:?} adds whitespace inside {}", s, if preserve { "xml:space=preserve scope" } else if mixed { "mixed content" } else { "a suppressed element" }));
                         }
                     }
                 }
@@ -290,6 +297,10 @@ fn inputs(target: &str, large: bool) -> Vec<String> {
                         v.push(format!("<doc{}><a{}><b{}><c/></b></a></doc>", s1, s2, s3));
                         v.push(format!("<doc{}><a{}>text<b{}><c/></b></a></doc>", s1, s2, s3));
                         v.push(format!("<doc{}><a{}><b{}><c/><!--x--></b><d/></a></doc>", s1, s2, s3));
+                        // deeper: element-only content below an element inside mixed content / inside a suppressed element
+                        v.push(format!("<doc{}><p{}>Hello <b{}><c><d/></c></b> world</p></doc>", s1, s2, s3));
+                        v.push(format!("S:<doc{}><a{}><b{}><c><d/></c></b></a><e><f/></e></doc>", s1, s2, s3));
+                        v.push(format!("S:<doc{}><e{}><a><b{}><c/></b></a></e></doc>", s1, s2, s3));
                     }
                 }
             }
@@ -1236,7 +1247,6 @@ mod routes {
         let f: Vec<&str> = input.split('|').collect();
         if f.len() != 3 { return None; }
         let mut children = Vec::new();
-        let mut last_text = false;
         for (i, ch) in f[1].chars().enumerate() {
             let c = match ch {
                 'e' => fixed::Content::Element(fixed::Element { name: name("e", ""), prefixes: vec![], attributes: vec![], children: vec![] }),
@@ -1249,8 +1259,7 @@ mod routes {
                 'p' => fixed::Content::ProcessingInstruction(fixed::ProcessingInstruction { target: format!("p{}", i), content: Some("d".into()) }),
                 _ => return None,
             };
-            if ch == 't' && last_text { return None; }   // two adjacent text nodes are not an abstract document
-            last_text = ch == 't';
+            // two adjacent text contents denote their concatenation (every route consolidates them into one text node)
             children.push(c);
         }
         let root = fixed::Element { name: name("a", if f[0].contains('n') { "urn:p" } else { "" }),
@@ -1339,8 +1348,22 @@ mod routes {
         if matches!(order, Order::DeclarationsLast) { decorate(xot, el, e); }
         Ok(el)
     }
+    /// the abstract document: adjacent text contents are one text node (the stepwise routes create it as one node; the
+    /// fixed:: route is handed the pieces and has to consolidate them itself)
+    fn merged(e: &fixed::Element) -> fixed::Element {
+        let mut children: Vec<fixed::Content> = Vec::new();
+        for c in &e.children {
+            match (children.last_mut(), c) {
+                (Some(fixed::Content::Text(prev)), fixed::Content::Text(t)) => prev.push_str(t),
+                (_, fixed::Content::Element(ce)) => children.push(fixed::Content::Element(merged(ce))),
+                (_, other) => children.push(other.clone()),
+            }
+        }
+        fixed::Element { name: e.name.clone(), prefixes: e.prefixes.clone(), attributes: e.attributes.clone(), children }
+    }
     fn build_doc(xot: &mut Xot, d: &fixed::Document, order: Order) -> Result<Node, xot::Error> {
-        let el = build(xot, &d.document_element, order)?;
+        let root = merged(&d.document_element);
+        let el = build(xot, &root, order)?;
         let doc = xot.new_document_with_element(el)?;
         let dc = |xot: &mut Xot, c: &fixed::DocumentContent| match c { fixed::DocumentContent::Comment(t) => xot.new_comment(t),
             fixed::DocumentContent::ProcessingInstruction(p) => { let t = xot.add_name(&p.target); xot.new_processing_instruction(t, p.content.as_deref()) } };
@@ -1382,7 +1405,7 @@ mod routes {
         let mut frontier = seqs.clone();
         for _ in 0..(if large { 4 } else { 3 }) {
             let mut next = Vec::new();
-            for s in &frontier { for k in kinds { if k == 't' && s.ends_with('t') { continue; } next.push(format!("{}{}", s, k)); } }
+            for s in &frontier { for k in kinds { next.push(format!("{}{}", s, k)); } }
             seqs.extend(next.iter().cloned());
             frontier = next;
         }
